@@ -83,6 +83,11 @@ fn main() {
             }
             std::process::exit(checks::replay(&args[2]));
         }
+        "checkchainfind" => {
+            let n = args.get(2).and_then(|x| x.parse().ok()).unwrap_or(1000);
+            let d = args.get(3).and_then(|x| x.parse().ok()).unwrap_or(8);
+            e2_oracles::checkchainfind(n, d);
+        }
         "chainfind" => {
             let n = args.get(2).and_then(|x| x.parse().ok()).unwrap_or(1000);
             let d = args.get(3).and_then(|x| x.parse().ok()).unwrap_or(16);
